@@ -365,6 +365,12 @@ func checkC08(c *checkCtx) {
 				// with simultaneous attempt results the hedge may accept another one than in the base schedule:
 				// a result an attempt had produced before the cancellation took effect is a completed result
 				c.cov("c08.result_is_earlier_hedge_attempt_result")
+			} else if scopePos < 0 && decidedBeforeCancel(v, c1seq) {
+				// every inner result the outermost policy used existed before the cancellation took effect
+				// and it scheduled nothing afterwards: the execution had completed, only the return was
+				// pending. (The uncancelled base run may differ when a result and a per-attempt timeout
+				// tie at one instant and the schedule resolves the tie the other way.)
+				c.cov("c08.result_is_completed_result_by_history")
 			} else if src != SrcTimeout && got.Val == nil && got.Err == timeout.ErrExceeded && timeoutFiredInCurrentAttempt(c.Res, v) {
 				// a per-attempt Timeout had fired and its attempt was still unwinding when the cancellation
 				// arrived: two causes overlap and either may be named. Once the enclosing retry policy has
@@ -557,4 +563,41 @@ func timeoutFiredInCurrentAttempt(res *RunResult, v *ExecView) bool {
 		}
 	}
 	return false
+}
+
+// decidedBeforeCancel: the outermost policy call received its last inner result before the
+// cancellation took effect (sequence number c1seq) and, from that result on, no retry was
+// scheduled, no hedge started and no layer was entered - it was not waiting for anything, it had
+// decided and was returning.
+func decidedBeforeCancel(v *ExecView, c1seq int) bool {
+	root := v.Root
+	if root == nil || root.Exit == nil || len(root.Children) == 0 {
+		return false
+	}
+	last := -1
+	for _, ch := range root.Children {
+		if ch.Exit == nil {
+			return false
+		}
+		if ch.Exit.Seq > last {
+			last = ch.Exit.Seq
+		}
+	}
+	if last >= c1seq {
+		return false
+	}
+	for _, e := range v.Events {
+		if e.Seq <= last || e.Seq >= root.Exit.Seq {
+			continue
+		}
+		switch e.Kind {
+		case EvProbeEnter, EvFnStart, EvFallbackFn:
+			return false
+		case EvListener:
+			if e.L == LRetryScheduled || e.L == LHedge || e.L == LRetry {
+				return false
+			}
+		}
+	}
+	return true
 }
